@@ -279,8 +279,11 @@ func c12Loop(e *Env) {
 				}
 			}
 			r.Check(incAfter, rule, key+":inc-after", pos, "index++ follows every handler call", "no `index++` right after the handler call: the same handler would be entered again")
-			// statement before the loop is index++
+			// statement before the loop is index++ (or it is the loop's init statement)
 			incBefore := false
+			if inc, ok := loop.Init.(*ast.IncDecStmt); ok && inc.Tok == token.INC && usedVar(info, inc.X) == idx {
+				incBefore = true
+			}
 			if blk, ok := par[loop].(*ast.BlockStmt); ok {
 				for i, s := range blk.List {
 					if s == ast.Stmt(loop) && i > 0 {
@@ -324,9 +327,34 @@ func c12Assembly(e *Env) {
 		_, firstSliced := unparen(first.Args[0]).(*ast.SliceExpr)
 		se, secondSliced := unparen(second.Args[0]).(*ast.SliceExpr)
 		if !firstSliced && usedVar(info, first.Args[1]) == gh && secondSliced && usedVar(info, second.Args[1]) == param {
-			// merged[len(group.Handlers):]
-			if c, ok := unparen(se.Low).(*ast.CallExpr); ok && isBuiltin(info, c, "len") && usedVar(info, c.Args[0]) == gh {
+			// merged[len(group.Handlers):] — directly or through a local holding that length
+			isGroupLen := func(x ast.Expr) bool {
+				c, ok := unparen(x).(*ast.CallExpr)
+				return ok && isBuiltin(info, c, "len") && usedVar(info, c.Args[0]) == gh
+			}
+			if isGroupLen(se.Low) {
 				okOrder = true
+			} else if lv := usedVar(info, se.Low); lv != nil && !lv.IsField() {
+				nAssign, good := 0, 0
+				ast.Inspect(comb.Decl.Body, func(n ast.Node) bool {
+					switch x := n.(type) {
+					case *ast.AssignStmt:
+						for i, l := range x.Lhs {
+							if usedVar(info, l) == lv {
+								nAssign++
+								if len(x.Rhs) == len(x.Lhs) && isGroupLen(x.Rhs[i]) {
+									good++
+								}
+							}
+						}
+					case *ast.IncDecStmt:
+						if usedVar(info, x.X) == lv {
+							nAssign++
+						}
+					}
+					return true
+				})
+				okOrder = nAssign == 1 && good == 1
 			}
 		}
 	}
@@ -366,16 +394,49 @@ func c12Assembly(e *Env) {
 		r.Anchor(rule, rel+"."+recv+"."+name)
 		return nil
 	}
-	guse, r404, r405 := fn("pkg/route", "RouterGroup", "Use"), fn("pkg/route", "Engine", "rebuild404Handlers"), fn("pkg/route", "Engine", "rebuild405Handlers")
-	if guse == nil || r404 == nil || r405 == nil {
+	// the rebuild functions are found by role: the (single) method of Engine that assigns
+	// allNoRoute / allNoMethod — their private names may change
+	rebuilder := func(fld string) *core.FuncInfo {
+		fv := w.Field("pkg/route", "Engine", fld)
+		var found []*core.FuncInfo
+		for _, fi := range declaredNonTest(w) {
+			if fv == nil || fi.Decl.Body == nil {
+				continue
+			}
+			finfo := fi.Pkg.TypesInfo
+			has := false
+			ast.Inspect(fi.Decl.Body, func(n ast.Node) bool {
+				if as, ok := n.(*ast.AssignStmt); ok {
+					for _, l := range as.Lhs {
+						if usedVar(finfo, l) == fv {
+							has = true
+						}
+					}
+				}
+				return true
+			})
+			if has {
+				found = append(found, fi)
+			}
+		}
+		if len(found) != 1 {
+			r.Anchor(rule, fmt.Sprintf("the one function assigning Engine.%s (found %d)", fld, len(found)))
+			return nil
+		}
+		return found[0]
+	}
+	guse := fn("pkg/route", "RouterGroup", "Use")
+	f404, f405 := rebuilder("allNoRoute"), rebuilder("allNoMethod")
+	if guse == nil || f404 == nil || f405 == nil {
 		return
 	}
+	r404, r405 := f404.Obj, f405.Obj
 	callsIn("pkg/route", "Engine", "Use", guse, r404)
 	callsIn("pkg/route", "Engine", "Use", guse, r405)
 	callsIn("pkg/route", "Engine", "NoRoute", r404)
 	callsIn("pkg/route", "Engine", "NoMethod", r405)
-	callsIn("pkg/route", "Engine", "rebuild404Handlers", comb.Obj)
-	callsIn("pkg/route", "Engine", "rebuild405Handlers", comb.Obj)
+	callsIn("pkg/route", "Engine", r404.Name(), comb.Obj)
+	callsIn("pkg/route", "Engine", r405.Name(), comb.Obj)
 	callsIn("pkg/route", "RouterGroup", "Group", comb.Obj)
 	callsIn("pkg/route", "RouterGroup", "handle", comb.Obj)
 	// handle: the combined chain is what is registered
